@@ -905,7 +905,15 @@ pub fn normalise_rustc_message(text: &str) -> String {
         }
     }
     flush(&mut word, &mut out);
-    out.replace("M::", "").chars().take(120).collect()
+    // `std::boxed::Box<T>` and `Box<T>` are the same message in different rustc phrasings
+    let mut t = out.replace("M::", "");
+    for prefix in ["std::boxed::", "std::option::", "std::vec::", "std::string::", "std::collections::", "core::num::", "std::num::"] {
+        t = t.replace(prefix, "");
+    }
+    for int in ["u8", "u16", "u32", "u64", "i8", "i16", "i32", "i64"] {
+        t = t.replace(&format!("NonZero<{int}>"), "NonZero<int>");
+    }
+    t.chars().take(120).collect()
 }
 
 /// Replay of a rustc-stage finding: regenerate the run, render, check one module.
